@@ -106,6 +106,14 @@ CHECKS = {
             "matching ratios != 1).",
             "Trusted: TLC, numpy, math. The running beyond one loop is eko's (trusted); only PTO=0 cards have a closed-form oracle.",
             "DESIGN.md 7/C17"),
+    "C11": ("model_checking",
+            "TLC theorems on XS.tla (documented coefficients as exact rationals times atoms, over a rational kinematic lattice) + real runs "
+            "requesting each cross-section kind with F2/FL/F3 of the same run + TLC trace validation of the linear relation",
+            "TLC checks the F3 sign rule, HERA CC = y+/4 HERA NC, the equivalence with the documented N(F2 - yL/y+ FL +- y-/y+ xF3) form and "
+            "which kinds need F3 over a rational lattice of (x, y, Q2, M, MW2); for every kind x projectile x lattice point (one with the "
+            "CHORUS/NuTeV y+ negative) x heavyness x TMC mode x scheme a real run requests the cross section together with its structure "
+            "functions and the residual XS - (a F2 + b FL + c xF3) must vanish entry-wise for every order key; TLC recomputes (a,b,c).",
+            "Trusted: TLC, numpy, the numerical values of pi, G_F and the unit conversion (atoms).", "DESIGN.md 7/C11"),
 }
 
 PENDING = {}
